@@ -133,6 +133,19 @@ pub fn corpus(thorough: bool, seed: u64) -> Vec<Grammar> {
             out.push(wrap(&G::Alt(vec![G::Seq(vec![w.clone(), lit("f")]), G::Seq(vec![pa, lit("g")])])));
         }
     }
+    // a within-word expression met again after a different one has been compiled in between
+    // (the automaton pool must hand back the id of the equal automaton, not of the latest one)
+    for (i, w) in words.iter().enumerate() {
+        let w2 = &words[(i + 1) % words.len()];
+        if w2 != w {
+            out.push(wrap(&G::Alt(vec![G::Seq(vec![lit("x"), w.clone(), lit("f")]), G::Seq(vec![lit("y"), w2.clone(), lit("g")]), G::Seq(vec![lit("z"), w.clone(), lit("h")])])));
+        }
+    }
+    out.push(wrap(&G::Alt(vec![
+        G::Seq(vec![G::Sub(vec![lit("--color="), G::Alt(vec![lit("always"), lit("never")])]), lit("x")]),
+        G::Seq(vec![G::Sub(vec![lit("--format="), G::Alt(vec![lit("json"), lit("yaml")])]), lit("z")]),
+        G::Seq(vec![G::Sub(vec![lit("--color="), G::Alt(vec![lit("always"), lit("never")])]), lit("y")]),
+    ])));
     // the same literal with an explicitly empty description / without one / with one
     out.push(wrap(&G::Alt(vec![G::Seq(vec![litd("a", ""), lit("f")]), G::Seq(vec![lit("a"), lit("g")])])));
     out.push(wrap(&G::Alt(vec![G::Seq(vec![litd("a", ""), lit("f")]), G::Seq(vec![litd("a", ""), lit("g")])])));
@@ -383,7 +396,7 @@ pub fn run(thorough: bool, seed: u64) -> Report {
     let corpus = corpus(thorough, seed);
     let shells: Vec<&str> = if thorough { SHELLS.to_vec() } else { vec!["bash", "zsh"] };
     let mut rep = Report {
-        bound: format!("every expression tree with <= {} nodes over the leaf vocabulary + 14 hand-picked shapes + {} seeded random trees of 6..15 nodes, each wrapped as `cmd E;` with plain/specialised definitions, x shells {:?}", if thorough { 5 } else { 4 }, if thorough { 3000 } else { 300 }, shells),
+        bound: format!("every expression tree with <= {} nodes over the leaf vocabulary + hand-picked shapes (incl. every small within-word expression mirrored, repeated, and met again after a different one) + {} seeded random trees of 6..15 nodes, each wrapped as `cmd E;` with plain/specialised definitions, x shells {:?}", if thorough { 5 } else { 4 }, if thorough { 3000 } else { 300 }, shells),
         exhaustive: true,
         ..Default::default()
     };
